@@ -129,9 +129,9 @@ def check_send(n, mtu, tid, fails, stats):
     import signal
 
     def too_long(_s, _f):
-        raise TimeoutError('segmentation did not finish within 5 s')
+        raise TimeoutError('segmentation did not finish within 60 s')
     signal.signal(signal.SIGALRM, too_long)
-    signal.alarm(5)
+    signal.alarm(60)
     try:
         segs, item = segments_of(data, mtu, tid, limit=4 * n + 8)
     except ValueError as e:
